@@ -238,6 +238,20 @@ def slice_in_tuple(env, src):
     return False
 
 
+def duplicate_keyword(env, src):
+    """does some call / filter / test of the template repeat a keyword name itself?"""
+    import jinja2.nodes as N
+    try:
+        tree = env.parse(src)
+    except Exception:
+        return False
+    for n in tree.find_all((N.Call, N.Filter, N.Test)):
+        keys = [k.key for k in n.kwargs]
+        if len(set(keys)) < len(keys):
+            return True
+    return False
+
+
 def classify(ex, env=None, src=None):
     """finding key of a deviation"""
     msg = str(ex)
@@ -248,18 +262,46 @@ def classify(ex, env=None, src=None):
         if "duplicate argument" in msg:
             return "F5:duplicate-parameter"
         if "keyword argument repeated" in msg:
+            m = re.search(r"repeated: (\w+)", msg)
+            if m and m.group(1) in ("caller", "_loop_vars", "_block_vars") and env is not None and not duplicate_keyword(env, src):
+                return "generator-keyword-collision"
             return "F6:duplicate-keyword"
         if "too many statically nested blocks" in msg or "too many levels of indentation" in msg:
             return "F8:static-nesting"
         if "'break' outside loop" in msg or "'continue' not properly in loop" in msg:
             return "F25:loopcontrol-outside-loop"
+        if ("invalid character" in msg or "invalid decimal literal" in msg) and "<unknown>" in msg:
+            return "float-unicode-digits"  # raised by ast.literal_eval inside Lexer.wrap, not by compile() of generated code
         return f"SyntaxError:{msg[:60]}"
     if isinstance(ex, ValueError) and "integer string conversion" in msg:
         return "F7/F9:int-digit-limit"
+    if isinstance(ex, TypeError) and "unhashable type" in msg:
+        return "fold:unhashable-dict-key"
     return f"{nm}:{msg[:60]}"
 
 
-class Hang(Exception):
+HANG_CPU_SECONDS = 5.0
+
+
+def classify_hang(env, src):
+    """a hang whose cause is constant folding of `**` with an astronomically large constant exponent (resource clause A5)"""
+    import jinja2.nodes as N
+    try:
+        tree = env.parse(src)
+    except Exception:
+        return "hang"
+    for p in tree.find_all(N.Pow):
+        r = p.right
+        while isinstance(r, (N.Pos, N.Neg)):
+            r = r.node
+        if isinstance(r, N.Const) and isinstance(r.value, int) and abs(r.value) > 10 ** 6:
+            return "fold:huge-pow"
+        if isinstance(r, N.Pow):
+            return "fold:huge-pow"
+    return "hang"
+
+
+class Hang(BaseException):  # BaseException: as_const() implementations swallow `Exception`
     pass
 
 
@@ -270,8 +312,9 @@ def _alarm(signum, frame):
 def check_source(env, src):
     """-> None if the property holds for this source, else (key, detail)"""
     nl = len(_newline_re.findall(src))
-    old = signal.signal(signal.SIGALRM, _alarm)
-    signal.alarm(10)
+    # "hangs" = more than HANG_CPU_SECONDS of CPU time of this process on one short source (a CPU timer, so that a loaded machine does not matter)
+    old = signal.signal(signal.SIGPROF, _alarm)
+    signal.setitimer(signal.ITIMER_PROF, HANG_CPU_SECONDS)
     try:
         try:
             code = env.compile(src, name="t", raw=True)
@@ -280,7 +323,7 @@ def check_source(env, src):
                 return ("lineno-out-of-range", f"TemplateSyntaxError.lineno = {ex.lineno!r} for a source with {nl} line breaks ({ex.message})")
             return None
         except Hang:
-            return ("hang", "no result after 10 s")
+            return (classify_hang(env, src), f"no result after {HANG_CPU_SECONDS} s of CPU time")
         except BaseException as ex:  # noqa
             return (classify(ex, env, src), f"{type(ex).__name__}: {str(ex)[:120]}")
         try:
@@ -288,13 +331,13 @@ def check_source(env, src):
                 warnings.simplefilter("ignore")
                 compile(code, "<template>", "exec")
         except Hang:
-            return ("hang", "compile() of the generated code: no result after 10 s")
+            return ("hang", f"compile() of the generated code: no result after {HANG_CPU_SECONDS} s of CPU time")
         except BaseException as ex:  # noqa
             return (classify(ex, env, src), f"generated code rejected: {type(ex).__name__}: {str(ex)[:120]}")
         return None
     finally:
-        signal.alarm(0)
-        signal.signal(signal.SIGALRM, old)
+        signal.setitimer(signal.ITIMER_PROF, 0)
+        signal.signal(signal.SIGPROF, old)
 
 
 BUDGET = {"quick": 5000, "thorough": 75000}
